@@ -414,7 +414,8 @@ pub fn run_c05(tier: Tier) -> ! {
                 let mut c = cfg.clone();
                 c.baud = baud;
                 c.slot_bits = c.slot_bits.max(crate::w2::MIN_SLOT[baud]);
-                cfgs.push((format!("{label} baud#{baud}"), c, depth, secs, cap));
+                // (thorough: one level less deep than the 19.2 kbit/s worlds, half the state cap)
+                cfgs.push((format!("{label} baud#{baud}"), c, if tier == Tier::Thorough { depth - 1 } else { depth }, secs, if tier == Tier::Thorough { cap / 2 } else { cap }));
             }
         }
     }
